@@ -304,7 +304,7 @@ pub(crate) trait RawCache: Sized {
 
         let id = SharedString::from(id);
         let cache = AnyCache { cache: self };
-        let entry = crate::asset::load_and_record(cache, id, typ)?;
+        let entry = crate::asset::load_and_record(cache, id, typ, true)?;
 
         Ok(self.assets().insert(entry))
     }
@@ -375,7 +375,7 @@ impl<T: RawCache> Cache for T {
             }
         }
 
-        crate::asset::load_and_record(self._as_any_cache(), id, typ)
+        crate::asset::load_and_record(self._as_any_cache(), id, typ, false)
     }
 
     #[inline]
